@@ -293,7 +293,7 @@ def run_case(desc, ctx):
             res.violate('C11:%s:tsan' % cmd, 'ThreadSanitizer reports %d data race(s) in %s' % (tsan_total, cmd), detail)
     if nontrivial:
         res.nontrivial.append(fingerprint([cmd, desc['seed']]))
-    if res.sample is None:
+    if res.sample is None and nontrivial:
         res.sample = {'cmd': cmd, 'k': k, 'samples': detail.get('ns', len(detail.get('samples', []))), 'runs': desc['nruns'] + 1,
                       'distinct_schedules': len(schedules - {None}), 'work_items_single_thread': base['items']}
     return res
